@@ -140,6 +140,47 @@ pub fn hot_cases() -> Vec<HotCase> {
 }
 
 
+
+// ------------------------------------------------------------------ every pair of leaf fields, each at each of its choices
+/// (packet kind index, size mode, pair index within the kind): decoded on the fly into two (leaf, choice) targets
+#[derive(Clone, Debug)]
+pub struct PairCase {
+    pub variant: String,
+    pub compressed: bool,
+    pub a: (String, usize),
+    pub b: (String, usize),
+}
+
+pub struct PairSweep;
+impl Part for PairSweep {
+    type Case = PairCase;
+    fn name(&self) -> &'static str {
+        "pairwise-sweep"
+    }
+    fn check(&self, c: &PairCase, ev: &mut Local) -> Result<(), Fail> {
+        let p = spec().packet(&c.variant).ok_or_else(|| Fail::new("harness:variant", c.variant.clone()))?;
+        let mode = if c.compressed { Mode::Compressed } else { Mode::Uncompressed };
+        let inst = image::two_hot(p, &mode, (c.a.0.as_str(), c.a.1), (c.b.0.as_str(), c.b.1));
+        judge_inst(&inst, &mode, "c02")?;
+        ev.nontrivial_distinct();
+        if c.a.1 == 0 && c.b.1 == 0 {
+            ev.class(&c.variant);
+        }
+        Ok(())
+    }
+    fn to_json(&self, c: &PairCase) -> Value {
+        json!({"kind": c.variant, "compressed": c.compressed, "field_a": c.a.0, "choice_a": c.a.1, "field_b": c.b.0, "choice_b": c.b.1})
+    }
+    fn from_json(&self, v: &Value) -> Option<PairCase> {
+        Some(PairCase {
+            variant: v.get("kind")?.as_str()?.to_string(),
+            compressed: v.get("compressed")?.as_bool()?,
+            a: (v.get("field_a")?.as_str()?.to_string(), v.get("choice_a")?.as_u64()? as usize),
+            b: (v.get("field_b")?.as_str()?.to_string(), v.get("choice_b")?.as_u64()? as usize),
+        })
+    }
+}
+
 // ------------------------------------------------------------------ every value of every plain integer / time field
 /// A plain integer or time field (u8 / u16 / i16 / u32 / i32 / duration, not an enumerant, flag word or count) at `off` of a
 /// conformant frame: every wire value is meaningful, so decoding must succeed and writing the packet back must reproduce
@@ -296,7 +337,7 @@ pub fn round_u32() -> Vec<u32> {
 }
 
 pub fn parts() -> Vec<Box<dyn DynPart>> {
-    vec![Box::new(OneHot), Box::new(RandomImages), Box::new(crate::props::c03::OneCodec("c02")), Box::new(IntSweep)]
+    vec![Box::new(OneHot), Box::new(RandomImages), Box::new(crate::props::c03::OneCodec("c02")), Box::new(IntSweep), Box::new(PairSweep)]
 }
 
 pub fn run(run: &mut Run) {
@@ -326,6 +367,39 @@ pub fn run(run: &mut Run) {
     run.enumerate(&OneHot, n, false, |i| Some(hot[i as usize].clone()));
     let n = run.budget(73 * 2 * 500, 73 * 2 * 20_000);
     run.prop(&RandomImages, tape_strategy(), n);
+    // every pair of leaf fields of a kind, each at each of its choices (a special case keyed on two fields at once)
+    {
+        // per (kind, mode): leaves with their choice counts; the pair (i < j, ki, kj) is decoded from a running index
+        let mut blocks: Vec<(String, bool, Vec<(String, usize)>, u64, u64)> = vec![]; // variant, mode, leaves, first index, count
+        let mut total = 0u64;
+        for p in &spec().packets {
+            let leaves: Vec<(String, usize)> = image::targets(p).into_iter().filter(|(_, n)| *n > 0).collect();
+            let sum: u64 = leaves.iter().map(|(_, n)| *n as u64).sum();
+            let sq: u64 = leaves.iter().map(|(_, n)| (*n as u64) * (*n as u64)).sum();
+            let pairs = (sum * sum - sq) / 2;
+            for compressed in [false, true] {
+                blocks.push((p.variant.clone(), compressed, leaves.clone(), total, pairs));
+                total += pairs;
+            }
+        }
+        run.extra.insert("pairwise_cases".into(), json!(total));
+        run.enumerate(&PairSweep, total, false, |i| {
+            let k = blocks.partition_point(|b| b.3 <= i) - 1;
+            let (variant, compressed, leaves, first, _) = &blocks[k];
+            let mut r = i - first;
+            for x in 0..leaves.len() {
+                for y in x + 1..leaves.len() {
+                    let n = (leaves[x].1 * leaves[y].1) as u64;
+                    if r < n {
+                        let (ka, kb) = ((r / leaves[y].1 as u64) as usize, (r % leaves[y].1 as u64) as usize);
+                        return Some(PairCase { variant: variant.clone(), compressed: *compressed, a: (leaves[x].0.clone(), ka), b: (leaves[y].0.clone(), kb) });
+                    }
+                    r -= n;
+                }
+            }
+            None
+        });
+    }
     // every value of every plain integer / time field: 8 and 16 bits completely, 32 bits over round values
     let fields = int_fields();
     let r32 = round_u32();
